@@ -13,6 +13,11 @@ R30e has_run() is also the duplicate test after a reconnect: the registration pa
      reconnect-restore clauses of C28, shared).
 R30f the id of the current run is fixed when its RunData is created: no assignment to `<run data>.run_id` anywhere in the
      aggregator outside RunData's constructor (relabelling the current run stores it under another run's id).
+R30g a run that has ended is told from a new one by its stored record: has_run() is cleared when the run stops, so in
+     run_started every create_plot_log / fresh RunData is under a look-up of the notification's run id among the stored
+     runs (a repository call taking `msg.run_id`) - otherwise a run_started resent after the stop opens the run again.
+R30h run_stopped without an active run either finds the run already recorded or keeps the notification: dropping it
+     leaves a run whose start arrives afterwards without a recent-run record (reordered notifications).
 Decides the pairing structure; database behaviour and message arrival order are outside.
 """
 from __future__ import annotations
@@ -92,8 +97,55 @@ def run(ctx) -> None:
         else:
             ctx.ok("R30a", inst, {"rule": "R30a", "create": c.text(), "fresh_assignments": [f.text() for f in fresh]})
 
-    # ---- R30b
+    # ---- R30g
+    ctx.rule("R30g", "run_started looks the run id up among the stored runs before opening a run")
+    msgp = started.node.args.args[1].arg if len(started.node.args.args) > 1 else None
+    if msgp is None:
+        raise AnchorError("run_started signature changed")
+    sdefs = local_single_defs(started)
+
+    def _is_lookup(e) -> bool:
+        from ..util import expand_local
+        e = expand_local(e, sdefs)
+        for x in ast.walk(e):
+            if isinstance(x, ast.Call) and isinstance(x.func, ast.Attribute) and x.func.attr.startswith(("get_", "has_", "exists", "find_")) \
+                    and "Repository" in norm(expand_local(x.func.value, sdefs)) \
+                    and any(norm(a) == f"{msgp}.run_id" for a in list(x.args) + [k.value for k in x.keywords]):
+                return True
+        return False
+    for c in creates + fresh:
+        inst = f"run_started: `{c.text()[:60]}` is under a look-up of {msgp}.run_id among the stored runs"
+        conds = g.conditions_at(c)
+        if any(_is_lookup(t) for t, pol in conds):
+            ctx.ok("R30g", inst)
+        else:
+            ctx.fail("R30g", started, c.ast, inst, "nothing on the way here asks whether this run id is already recorded as a recent run; "
+                     "has_run() is False again once the run has stopped, so a run_started resent after the stop (or during the "
+                     "next run) is taken for a new run: a second plot log, and later a second recent-run record, for the same run id")
+    # ---- R30h
+    ctx.rule("R30h", "run_stopped without an active run does not drop a notification whose run is not recorded")
     g2 = cfg_of(stopped)
+    from ..util import expand_local as _xl
+    _d2 = local_single_defs(stopped)
+    early = [n for n in g2.nodes if n.kind == "stmt" and isinstance(n.ast, ast.Return) and any(
+        norm(_xl(t, _d2)).endswith(".has_run()") and not pol for t, pol in g2.conditions_at(n))]
+    if not early:
+        raise AnchorError("run_stopped: no early return under `not has_run()`")
+    for n in early:
+        inst = "run_stopped: the no-active-run exit"
+        sdefs2 = local_single_defs(stopped)
+        body_lookup = any(isinstance(x, ast.Call) and call_attr(x) in ("get_by_run_id",) for t, pol in g2.conditions_at(n) for x in ast.walk(t))
+        keeps = any(isinstance(x, (ast.Assign, ast.AugAssign)) or (isinstance(x, ast.Call) and call_attr(x) in ("append", "add", "setdefault"))
+                    for m in g2.nodes if m.kind == "stmt" and m.ast is not None and g2.conditions_at(m) == g2.conditions_at(n)
+                    for x in ast.walk(m.ast))
+        if body_lookup or keeps:
+            ctx.ok("R30h", inst)
+        else:
+            ctx.fail("R30h", stopped, n.ast, inst, "the notification is logged and forgotten whether or not its run is recorded: when "
+                     "run_stopped overtakes the run_started of the same run (buffered notifications posted concurrently after a "
+                     "reconnect), the run is opened afterwards and nothing ever closes it - no recent-run record for that run")
+
+    # ---- R30b
     stores = [n for n in g2.nodes if node_calls(n, "store_recent_run")]
     if not stores:
         raise AnchorError("no store_recent_run call in FromEngine.run_stopped")
